@@ -1,0 +1,134 @@
+// SPDX-License-Identifier: MPL-2.0
+
+//! Verification hook (feature `verif-hooks`): a thread-local interceptor consulted at the top of
+//! every private sampler layer, plus public entry points to call each layer directly.
+//!
+//! The interceptor is told which layer is being entered and the layer's exact arguments. It may
+//! answer with an outcome, in which case the layer's body is skipped and that outcome is returned,
+//! or decline, in which case the body runs as usual. With no interceptor installed (the default)
+//! nothing changes.
+
+use num_bigint::{BigInt, BigUint};
+use num_rational::Ratio;
+use rand::Rng;
+use std::cell::RefCell;
+
+/// The sampler layers that consult the interceptor.
+#[derive(Clone, Copy, Debug, PartialEq, Eq, Hash, PartialOrd, Ord)]
+pub enum Layer {
+    /// `random_biguint_below(bound)`; argument is `bound / 1`.
+    UniformBelow,
+    /// `sample_bernoulli(gamma)`.
+    Bernoulli,
+    /// `sample_bernoulli_exp1(gamma)`.
+    BernoulliExp1,
+    /// `sample_bernoulli_exp(gamma)`.
+    BernoulliExp,
+    /// `sample_geometric_exp(gamma)`.
+    GeometricExp,
+    /// `sample_discrete_laplace(scale)`.
+    DiscreteLaplace,
+    /// `sample_discrete_gaussian(sigma)`.
+    DiscreteGaussian,
+}
+
+/// An outcome chosen by the interceptor.
+#[derive(Clone, Debug, PartialEq, Eq)]
+pub enum Outcome {
+    /// For the Bernoulli layers.
+    Bool(bool),
+    /// For the uniform and geometric layers.
+    Unsigned(BigUint),
+    /// For the Laplace and Gaussian layers.
+    Signed(BigInt),
+}
+
+/// Interceptor callback type.
+pub type Interceptor = Box<dyn FnMut(Layer, &Ratio<BigUint>) -> Option<Outcome>>;
+
+thread_local! {
+    static INTERCEPTOR: RefCell<Option<Interceptor>> = const { RefCell::new(None) };
+}
+
+/// Install an interceptor for the current thread, returning the previous one.
+pub fn set_interceptor(interceptor: Option<Interceptor>) -> Option<Interceptor> {
+    INTERCEPTOR.with(|cell| std::mem::replace(&mut *cell.borrow_mut(), interceptor))
+}
+
+fn intercept(layer: Layer, arg: &Ratio<BigUint>) -> Option<Outcome> {
+    // The callback is taken out of the cell while it runs, so that it can never observe a
+    // re-entrant borrow.
+    let mut callback = INTERCEPTOR.with(|cell| cell.borrow_mut().take())?;
+    let outcome = callback(layer, arg);
+    INTERCEPTOR.with(|cell| {
+        let mut slot = cell.borrow_mut();
+        if slot.is_none() {
+            *slot = Some(callback);
+        }
+    });
+    outcome
+}
+
+pub(crate) fn intercept_bool(layer: Layer, arg: &Ratio<BigUint>) -> Option<bool> {
+    match intercept(layer, arg)? {
+        Outcome::Bool(b) => Some(b),
+        other => panic!("verif-hooks: {layer:?} expects a Bool outcome, got {other:?}"),
+    }
+}
+
+pub(crate) fn intercept_unsigned(layer: Layer, arg: &Ratio<BigUint>) -> Option<BigUint> {
+    match intercept(layer, arg)? {
+        Outcome::Unsigned(u) => Some(u),
+        other => panic!("verif-hooks: {layer:?} expects an Unsigned outcome, got {other:?}"),
+    }
+}
+
+pub(crate) fn intercept_signed(layer: Layer, arg: &Ratio<BigUint>) -> Option<BigInt> {
+    match intercept(layer, arg)? {
+        Outcome::Signed(i) => Some(i),
+        other => panic!("verif-hooks: {layer:?} expects a Signed outcome, got {other:?}"),
+    }
+}
+
+pub(crate) fn intercept_uniform_below(bound: &BigUint) -> Option<BigUint> {
+    intercept_unsigned(Layer::UniformBelow, &Ratio::from(bound.clone()))
+}
+
+/// Uniform draw from `[low, high)` through `UniformBigUint`.
+pub fn uniform<R: Rng + ?Sized>(low: &BigUint, high: &BigUint, rng: &mut R) -> Option<BigUint> {
+    Some(
+        crate::dp::rand_bigint::UniformBigUint::new(low, high)
+            .ok()?
+            .sample(rng),
+    )
+}
+
+/// Calls `sample_bernoulli`.
+pub fn sample_bernoulli<R: Rng + ?Sized>(gamma: &Ratio<BigUint>, rng: &mut R) -> bool {
+    super::sample_bernoulli(gamma, rng)
+}
+
+/// Calls `sample_bernoulli_exp1`.
+pub fn sample_bernoulli_exp1<R: Rng + ?Sized>(gamma: &Ratio<BigUint>, rng: &mut R) -> bool {
+    super::sample_bernoulli_exp1(gamma, rng)
+}
+
+/// Calls `sample_bernoulli_exp`.
+pub fn sample_bernoulli_exp<R: Rng + ?Sized>(gamma: &Ratio<BigUint>, rng: &mut R) -> bool {
+    super::sample_bernoulli_exp(gamma, rng)
+}
+
+/// Calls `sample_geometric_exp`.
+pub fn sample_geometric_exp<R: Rng + ?Sized>(gamma: &Ratio<BigUint>, rng: &mut R) -> BigUint {
+    super::sample_geometric_exp(gamma, rng)
+}
+
+/// Calls `sample_discrete_laplace`.
+pub fn sample_discrete_laplace<R: Rng + ?Sized>(scale: &Ratio<BigUint>, rng: &mut R) -> BigInt {
+    super::sample_discrete_laplace(scale, rng)
+}
+
+/// Calls `sample_discrete_gaussian`.
+pub fn sample_discrete_gaussian<R: Rng + ?Sized>(sigma: &Ratio<BigUint>, rng: &mut R) -> BigInt {
+    super::sample_discrete_gaussian(sigma, rng)
+}
